@@ -280,6 +280,13 @@ add("rec-long-tail", "%start E\n%%\nE: E '+' 'n' | 'n';\n", tags=["rec"],
 add("rec-long-tail2", "%start L\n%%\nL: L ',' I | I;\nI: 'x' | '(' L ')';\n", tags=["rec"],
     inputs=["x x" + " , x" * 150, "( x x" + " , x" * 130 + " )", "x , , x"])
 
+# no repair leads to success and every step is an insert: with large token costs the accumulated
+# cost used to overflow (panic) before the time budget ran out
+add("rec-insert-chain", "%start S\n%right 'a'\n%%\nS: 'a' 'a' S 'a' | 'a' 'a' A 'a' | 'a' 'a';\nA: S | S A | 'a';\n", tags=["rec", "conflicts"],
+    inputs=["a a a", "a a a a a a", "a"], costs=[155, 200])
+add("rec-insert-chain255", "%start S\n%right 'a'\n%%\nS: 'a' 'a' S 'a' | 'a' 'a' A 'a' | 'a' 'a';\nA: S | S A | 'a';\n", tags=["rec", "conflicts"],
+    inputs=["a a a", "a a a a a"], costs=[255, 255])
+
 
 def select(tags=None, exclude=()):
     out = []
